@@ -5,23 +5,23 @@ HERE = os.path.dirname(os.path.dirname(os.path.abspath(__file__)))
 
 # What the hardening rounds (DESIGN 11.5-11.5g) added on top of the texts below.
 ADDED = {
- 'C01': ' Added later: callable-object probes, calls that fail for a missing REQUIRED binding and a finalize (later binds inside unlock_config) in mid-history, BaseException raised in bodies, caller values with hostile __eq__.',
- 'C04': ' Added later: BaseException in the first evaluated producer, same-named producers in two modules, gin.REQUIRED markers next to caller values, finalize in mid-history, skip_unknown forms, scoped references under dynamic registration.',
- 'C05': ' Added later: clear_config (with / without constants) in mid-history, deque-held references bound through the API, trailing-newline constant names.',
- 'C06': ' Added later: registered methods of same-named classes, placeholder-holding and reference-keyed dict values, ints beyond the repr digit limit, case-variant parameter names, references made ambiguous by a later registration, generated imports in two binding orders, iteration-order permutation of the set of recorded imports.',
- 'C07': ' Added later: callable-object probes, a called gin.singleton scenario with replay, falsy macro values.',
+ 'C01': ' Added later: callable-object probes, calls that fail for a missing REQUIRED binding and a finalize (later binds inside unlock_config) in mid-history, BaseException raised in bodies, caller values with hostile __eq__. Round 8: method histories (registered, used or bound before its class is registered).',
+ 'C04': ' Added later: BaseException in the first evaluated producer, same-named producers in two modules, gin.REQUIRED markers next to caller values, finalize in mid-history, skip_unknown forms, scoped references under dynamic registration. Round 8: a scoped reference whose target is registered anew between two parses.',
+ 'C05': ' Added later: clear_config (with / without constants) in mid-history, deque-held references bound through the API, trailing-newline constant names. Round 8: %names as dict keys, consumers that mutate what they receive, a definition refused by the lock followed by unlock_config.',
+ 'C06': ' Added later: registered methods of same-named classes, placeholder-holding and reference-keyed dict values, ints beyond the repr digit limit, case-variant parameter names, references made ambiguous by a later registration, generated imports in two binding orders, iteration-order permutation of the set of recorded imports. Round 8: a class referenced by one text and a method of it configured by a later one.',
+ 'C07': ' Added later: callable-object probes, a called gin.singleton scenario with replay, falsy macro values. Round 8: a namesake registered after the text was read once.',
  'C08': ' Added later: parts C (dynamically registered functions / classes / methods) and D (constants, macros named like them), aliases, rejected inserts with valid trailing components, terminal-marker and trailing-newline names, ambiguity under skip_unknown.',
  'C09': ' Added later: BaseException exits, clear_config / failing macro evaluation / rejected finalize inside open scopes, trailing-newline names.',
- 'C10': ' Added later: callable-object probes, bindings whose value is the REQUIRED marker.',
- 'C11': ' Added later: re-listing the same callable or class, names freed by method re-homing taken again, dynamically registered bare methods, classes without construction parameters, positional-only parameters, a self-contained dropped-function pattern.',
+ 'C10': ' Added later: callable-object probes, bindings whose value is the REQUIRED marker. Round 8: a scope entered a second time while it is open.',
+ 'C11': ' Added later: re-listing the same callable or class, names freed by method re-homing taken again, dynamically registered bare methods, classes without construction parameters, positional-only parameters, a self-contained dropped-function pattern. Round 8: a class (with its registered method) defined twice, a method bound before its class is registered.',
  'C12': ' Added later: BaseException in unlock bodies, unlock_config as a decorator on a recursive function, mutation attempts from another thread, hook pairs returning one object, special references nested in lists / dict values / dict keys, parses that begin with an import, interactive re-registration under the lock.',
- 'C13': ' Added later: functools.wraps over a registered function, BaseException in interactive bodies, stray exit_interactive_mode, dynamic configuration of a method of a registered class, classes without construction parameters, bound methods after their plain function, trailing-newline names.',
+ 'C13': ' Added later: functools.wraps over a registered function, BaseException in interactive bodies, stray exit_interactive_mode, dynamic configuration of a method of a registered class, classes without construction parameters, bound methods after their plain function, trailing-newline names. Round 8: lookup of an object displaced from its name.',
  'C14': ' Added later: skip_unknown forms on every entry point, dynamic names across files, module-is-not-a-package names.',
- 'C15': ' Added later: gin builtins under dynamic registration, get_bindings on placeholder holders, a module failing with a nameless ImportError, a module whose import registers a configurable.',
- 'C16': ' Added later: file names with braces, list-of-lines and extra-bindings entries, a decoy second reader, parse into a locked configuration, reads interrupted by BaseException, files vanishing under the reader.',
- 'C17': ' Added later: classes not re-instantiable from args (always / for some instances), classes that cannot be proxied, levels registered with lists, a natural TypeError with brace keyword names, attribute snapshot at raise time.',
+ 'C15': ' Added later: gin builtins under dynamic registration, get_bindings on placeholder holders, a module failing with a nameless ImportError, a module whose import registers a configurable. Round 8: complete-name spelling of the late configurable under skip_unknown=True.',
+ 'C16': ' Added later: file names with braces, list-of-lines and extra-bindings entries, a decoy second reader, parse into a locked configuration, reads interrupted by BaseException, files vanishing under the reader. Round 8: recorded imports are part of the compared state, the corrected text is parsed again after every fault, a missing module that becomes importable.',
+ 'C17': ' Added later: classes not re-instantiable from args (always / for some instances), classes that cannot be proxied, levels registered with lists, a natural TypeError with brace keyword names, attribute snapshot at raise time. Round 8: classes whose __new__ validates with errors of its own.',
  'C18': ' Added later: constructor faults, None / falsy singletons, provenance reads, direct singleton_value uses, macros, clear_constants between phases.',
- 'C19': ' Added later: capitalised and sibling packages, a plain gin.* import in a non-dynamic sibling text, statically registered objects under other names, a functools.wraps variant, scoped references, bad enabling statements under skip_unknown; one open known finding (alias-derived registry names).',
+ 'C19': ' Added later: capitalised and sibling packages, a plain gin.* import in a non-dynamic sibling text, statically registered objects under other names, a functools.wraps variant, scoped references, bad enabling statements under skip_unknown; one open known finding (alias-derived registry names). Round 8: a value holding a class reference and a reference to its method.',
  'C20': ' Added later: constants in the gin. namespace, root-bound and programmatic singleton constructors, parses interrupted by BaseException while reading.',
 }
 
